@@ -232,7 +232,14 @@ var c04TailRec = []string{
 	"def r: ., (.[]? | r); [r]", "def r: (.[]? | r), .; [r]", "[recurse(.[]?)]", "[..]", "def f: .[]? | f; [f]", "[limit(5; repeat(1))]", "[limit(5; 1 | repeat(. * 2))]", "last(range(10))", "first(range(10; 0; -1))", "until(. > 10; . + 3)?", "[while(. < 10; . + 3)?]", "[range(5)] | map(select(. > 1))", "isempty(empty)", "[.[]?] | any, all",
 }
 
-var c04NearConstPaths = []string{".a = 1", ".a.b = 1", ".[0] = 1", ".[1:] = [1]", ".a[0].b = 1", ".[\"a\"] = 1", ".a[1:2] = [9]", ".[-1] = 1", ".a[.b] = 1", ".[.[0]]? = 1", "(.a) = 1", "(.a).b = 1", ".a[] = 1", ".[0][1:][0] = 1", ".a = (1, 2)", ".a = .b", ".a = empty", ".a = error(\"x\")", "try (.a = error(\"x\")) catch .", ".\"a\" = 1", ".\"a\\(1)\" = 1", ".[1.5] = 1", ".[1:2.5] = [1]", ".[null:1] = [1]", ".a.b.c.d = 1", ".[0] = .[1]", ".[2:1] = [\"x\"]", ".[\"a\", \"b\"] = 1", ".a |= . + 1", ".a += 1", ".[1e1000] = 1", ".[-1:] = []", ".a.a.a = .a", ".[0:1][0] = 5", "(.a, .b) = 1", ".a[1[0]]? = 1", ".[\"a\"[0:]]? = 1", ".[-1[0]]? = 2"}
+var c04NearConstPaths = []string{
+	// constant-path assignments whose right-hand side has several outputs, chained into further constant-path
+	// assignments that run on other values before the first is resumed
+	".a = (1, 2) | .c | .b = 3", ".a = (1, 2) | .b = (3, 4)", ".x.y = (.a, .b) | .x | .z = 1", "[.a = (1, 2) | .c? | .b = 3]", ".a = (1, 2) | [.b = 3, (.c? | .d = 4)]", "(.a = (1, 2)) as $v | .c? | .b = $v", ".a = (.b = (1, 2) | .c?) | .d = 5",
+	".a = (1, 2) | .c? | .b = (3, 4) | .a? | .e = 6", "def f: .a = (1, 2); f | .c? | .b = 3", "[.[0] = (1, 2) | .[1]? | .[0] = 3]?", ".a[0] = (1, 2) | .a | .[1] = 3", ".a = (1, 2), .b = 3 | .c? | .d = 4", ".a += (1, 2) | .c? | .b += 3", ".a |= (., 2) | .c? | .b = 3",
+	// literal keys that are numbers but not small integers
+	"path(.[1e19])", "path(.[-0.0])", "path(.[1e1000])", "path(.[2.0])", "path(.[1.0:2.0])", ".[1e19]? = 1", ".[2.0] = 1", ".[-0.0] |= 5", "try (.[1e19] |= 1) catch .", "path(.[9223372036854775808])", "path(.[-1e19])", "path(.[1.5])", "path(.[0.0])", ".[1e2]? = 0 | length", "path(.a[1e19])?",
+	".a = 1", ".a.b = 1", ".[0] = 1", ".[1:] = [1]", ".a[0].b = 1", ".[\"a\"] = 1", ".a[1:2] = [9]", ".[-1] = 1", ".a[.b] = 1", ".[.[0]]? = 1", "(.a) = 1", "(.a).b = 1", ".a[] = 1", ".[0][1:][0] = 1", ".a = (1, 2)", ".a = .b", ".a = empty", ".a = error(\"x\")", "try (.a = error(\"x\")) catch .", ".\"a\" = 1", ".\"a\\(1)\" = 1", ".[1.5] = 1", ".[1:2.5] = [1]", ".[null:1] = [1]", ".a.b.c.d = 1", ".[0] = .[1]", ".[2:1] = [\"x\"]", ".[\"a\", \"b\"] = 1", ".a |= . + 1", ".a += 1", ".[1e1000] = 1", ".[-1:] = []", ".a.a.a = .a", ".[0:1][0] = 5", "(.a, .b) = 1", ".a[1[0]]? = 1", ".[\"a\"[0:]]? = 1", ".[-1[0]]? = 2"}
 
 func init() {
 	run.Register(&run.Prop{
@@ -253,7 +260,7 @@ func init() {
 				}
 				return out
 			}
-			fixed := []run.TV{{V: nil}, {V: []any{1, 2, 3}}, {V: map[string]any{"a": []any{1, map[string]any{"b": 2}}, "b": 1}}, {V: 2}, {V: "ab"}}
+			fixed := []run.TV{{V: nil}, {V: []any{1, 2, 3}}, {V: map[string]any{"a": []any{1, map[string]any{"b": 2}}, "b": 1}}, {V: 2}, {V: "ab"}, {V: map[string]any{"c": map[string]any{"d": 0}, "a": map[string]any{"e": 1}, "x": map[string]any{"z": 0}, "b": 7}}}
 			for _, t := range c04ArgTemplates {
 				for _, a := range c04OneInstr {
 					src := "def f: .[0]?; 1 as $x | label $out | " + strings.ReplaceAll(t, "%s", a)
